@@ -33,6 +33,7 @@ NOT_DECIDED = ["concatenation of chunks equals the stream; independence from rea
 
 def run(ctx, rep):
     prog = ctx.prog
+    wiring_rule(ctx, rep, "C06")
     for r, tx in (("C06.a", "chunker arithmetic cannot trap for accepted parameters"), ("C06.b", "max_size is tested before every push"),
                   ("C06.c", "read results are handled exhaustively"), ("C06.d", "the pushed byte is the hashed byte"), ("C06.e", "fixed-size chunks are bounded by `size`"),
                   ("C06.f", "bytes carried in the read-ahead buffer count towards min_size"),
